@@ -22,7 +22,7 @@ META = {
         "tested mu, data, both fitted vectors, both objective values and the POI bounds are solver symbols",
     ],
     "bounds": {
-        "quick": "5 statistics x POI lower bound {0, negative symbol} x return_fitted_pars x 3 models (POI first / last / multi-channel); all values symbolic",
+        "quick": "5 statistics x POI lower bound {0, negative symbol} x return_fitted_pars x 3 models (POI first / last / multi-channel); all values symbolic; 5 three-call sequences on one model and data tensor with per-call settings (thorough: all 25 ordered pairs)",
         "thorough": "same (the claim is not shape-dependent beyond poi_index) on 8 models",
     },
     "stubs": ["pyhf.infer.test_statistics.fit", "pyhf.infer.test_statistics.fixed_poi_fit"],
@@ -42,6 +42,10 @@ def items(tier, seed):
                 for m in MODELS[:nm]:
                     out.append((stat, lo0, rfp, m))
     out.append(("get_test_stat", None, None, None))
+    # call sequences on one model and one data tensor with different settings per call (no state may leak between calls)
+    pairs = [("qmu_tilde", "qmu"), ("qmu", "tmu"), ("tmu_tilde", "q0"), ("q0", "qmu_tilde"), ("tmu", "tmu")]
+    for a, b in pairs if tier == "quick" else [(x, y) for x in STATS for y in STATS]:
+        out.append(("sequence", a, b, MODELS[0]))
     return out
 
 
@@ -62,10 +66,50 @@ def oracle_stat(env, stat, mu, muhat, v_fixed, v_free):
     return t
 
 
+def _sequence(env, first, second, mtag):
+    """two (then a third, repeating the first) statistic calls on the same model object and the same data tensor, each
+    with its own init / bounds / fixed mask and tested value: every call runs its own two fits with its own settings and
+    its value follows from those two fits alone"""
+    tb = env.install_backend()
+    model = _model(env, mtag)
+    cfg = model.config
+    pi = cfg.poi_index
+    N = env.num
+    data = tb.astensor([env.sym(f"d{i}") for i in range(cfg.nmaindata + cfg.nauxdata)])
+    for k, stat in enumerate((first, second, first)):
+        init = [env.sym(f"c{k}_init{i}") for i in range(cfg.npars)]
+        bounds = [[env.sym(f"c{k}_lo{i}"), env.sym(f"c{k}_hi{i}")] for i in range(cfg.npars)]
+        lo = 0.0 if k == 0 else env.sym(f"c{k}_poi_lo")
+        hi = env.sym(f"c{k}_poi_hi", positive=True)
+        if k:
+            env.assume(N(lo) < 0)
+        bounds[pi] = [lo, hi]
+        fixed = [bool((i + k) % 2) and i != pi for i in range(cfg.npars)]
+        mu = env.sym(f"c{k}_mu")
+        env.assume(N(mu) >= N(lo))
+        env.assume(N(mu) <= N(hi))
+        stubs = FitStubs(env, prefix=f"c{k}")
+        with stubs.install():
+            val = STATS[stat](mu, data, model, init, bounds, fixed)
+        key = f"sequence:{first}>{second}"
+        kinds = [c["kind"] for c in stubs.calls]
+        if kinds != ["fixed", "free"]:
+            env.fail(f"call{k}:fits", f"expected one fixed-POI fit then one free fit in this call, got {kinds}", key=f"{key}:fits")
+            return
+        cf, cu = stubs.calls
+        tested = env.num(0) if stat == "q0" else N(mu)
+        env.eq(f"call{k}:fixed-fit@tested-mu", cf["poi_val"], tested, key=f"{key}:tested-mu")
+        for c, nm in ((cf, "fixed"), (cu, "free")):
+            env.holds(f"call{k}:{nm}-fit:own-settings", c["data"] is data and c["init"] is init and c["bounds"] is bounds and c["fixed"] is fixed, key=f"{key}:fit-args")
+        env.eq(f"call{k}:value", val, oracle_stat(env, stat, tested, cu["pars"][pi], cf["v"], cu["v"]), key=f"{key}:value")
+
+
 def harness_for(item):
     stat, lo0, rfp, mtag = item
     if stat == "get_test_stat":
         return _mapping
+    if stat == "sequence":
+        return lambda env: _sequence(env, item[1], item[2], item[3])
 
     def h(env):
         tb = env.install_backend()
